@@ -9,7 +9,7 @@
     argmap|x|axis (int, may be negative)|coords    elemwise|chunks/...|coords          squeeze|x|axes|coords      expand|x|axes|coords     permute|x|axes|coords
     pr|x|ax:k,...|ax:k / ax:t5,5,2 ...|kind(0 keepdims/1 concat/2 toCombine)|coords
     concat|chunks/...|axis|none or chunks|coords
-    stackunify|chunks/...    stack|chunks/...|axis|coords        unstack|x|axis|coords      repeat|x|r|axis|coords   copy|x|copy sizes|coords
+    stackunify|chunks/...    stack|chunks/...|axis|coords        unstack|x|axis|coords      repeat|x|r|axis (int, may be negative)|coords   copy|x|copy sizes|coords
     index|x|i ; s:start:stop:step:orig ; a:len|coords
     blocks|x|selected block indexes per axis (as chunks)|coords    qr1|a|coords        qr3|q1|r2,c2|coords      qr2|r,n
     reduced|shape|axes|keepdims(0/1)    aslices|lens|start|stop    bshapes|shape/shape/...    tree|k|d|nb     reggrid|c|n
@@ -206,9 +206,11 @@ def handle (line : String) : String :=
     let ax := (parseNat? axis).getD 0
     answer (unstackChunkss (parseChunks x) ax) (unstackBlock (parseChunks x) ax) (parseCoords coords)
   | ["repeat", x, r, axis, coords] =>
-    let ax := (parseNat? axis).getD 0
+    let xc := parseChunks x
     let r := (parseNat? r).getD 0
-    answer (repeatChunkss (parseChunks x) r ax) (repeatBlock (parseChunks x) r ax) (parseCoords coords)
+    match (parseInt? axis).bind (repeatNormAxis xc) with
+    | some ax => answer (repeatChunkss xc r ax) (repeatBlock xc r ax) (parseCoords coords)
+    | none => "error"
   | ["copy", x, cp, coords] =>
     answer (copyChunkss (parseChunks x) (parseNats cp)) (copyBlock (parseChunks x) (parseNats cp)) (parseCoords coords)
   | ["merge", x, cp, coords] =>
